@@ -343,7 +343,9 @@ def writer_octets(eng, st, toks):
     """per-octet descriptors of a run of fixed-width writer tokens (stops at the first variable-length token)"""
     out = []
     for t in toks:
-        if t["k"] == "int" and isinstance(t["val"], VInt):
+        if t["k"] == "int" and t.get("prov", ("?",))[0] == "const":
+            out.extend(_octets_of_value(eng, st, Lin.const(t["prov"][1]), t["n"].c))
+        elif t["k"] == "int" and isinstance(t["val"], VInt):
             out.extend(_octets_of_value(eng, st, t["val"].lin, t["n"].c))
         elif t["k"] == "bytes" and t["desc"][0] == "elems":
             for e in t["desc"][1]:
@@ -453,6 +455,11 @@ def canon_writer(eng, st, toks, prefix="self.*"):
             w = t["n"].c
             v = t["val"]
             p = t["prov"]
+            if p[0] == "const":
+                # resolved by the caller (a flag word decided by a case split on this path)
+                flush()
+                items.append(("const", w, p[1]))
+                continue
             if isinstance(v, VInt):
                 # a constant stays one item of its own width (the attribute type, a flag word)
                 if v.lin.is_const():
